@@ -49,10 +49,21 @@ let parse_l (tok : string) : n list =
   (* "L1,2,3" *)
   let body = String.sub tok 1 (String.length tok - 1) in
   List.map (fun x -> n_of_int (int_of_string x)) (split_on ',' body)
+(* "B<hex>" = the bytes; "P<len>:<hex>" = the pattern repeated / truncated to <len> bytes (compact form for
+   large periodic inputs; an empty pattern stands for a zero byte) *)
 let parse_b (tok : string) : n list =
-  let body = String.sub tok 1 (String.length tok - 1) in
-  let len = String.length body / 2 in
-  List.init len (fun i -> n_of_int (int_of_string ("0x" ^ String.sub body (2 * i) 2)))
+  let hexbytes body =
+    let len = String.length body / 2 in
+    Array.init len (fun i -> int_of_string ("0x" ^ String.sub body (2 * i) 2)) in
+  if String.length tok > 0 && tok.[0] = 'P' then begin
+    let colon = String.index tok ':' in
+    let len = int_of_string (String.sub tok 1 (colon - 1)) in
+    let pat = hexbytes (String.sub tok (colon + 1) (String.length tok - colon - 1)) in
+    let pat = if Array.length pat = 0 then [| 0 |] else pat in
+    let pn = Array.map n_of_int pat in
+    List.init len (fun i -> pn.(i mod Array.length pn))
+  end else
+    Array.to_list (Array.map n_of_int (hexbytes (String.sub tok 1 (String.length tok - 1))))
 let show_l (l : n list) : string = "L" ^ String.concat "," (List.map (fun x -> string_of_int (int_of_n x)) l)
 let show_b (l : n list) : string =
   let b = Buffer.create (2 * List.length l + 1) in
